@@ -72,6 +72,11 @@ def run(repo: Repo, chk: Check) -> None:
 
                 ok, why = nonempty_guard(f, n)
                 chk.ob("O1", Site.of(f, n), ok, why)
+            # ---- S.unpack_from(buf) / S.unpack(buf) on a struct.Struct: struct.error unless the buffer is long enough
+            elif isinstance(n, ast.Call) and isinstance(n.func, ast.Attribute) and n.func.attr in ("unpack_from", "unpack", "iter_unpack") and _struct_size(repo, f, n.func.value) is not None:
+                nsites += 1
+                ok, why = struct_guard(repo, f, n, t.cast(int, _struct_size(repo, f, n.func.value)))
+                chk.ob("O1", Site.of(f, n), ok, why)
             # ---- to_bytes capacity
             elif isinstance(n, ast.Call) and isinstance(n.func, ast.Attribute) and n.func.attr == "to_bytes" and n.args:
                 nsites += 1
@@ -135,6 +140,60 @@ def _annotation_nodes(f: Func) -> t.Set[int]:
                 for x in ast.walk(a):
                     out.add(id(x))
     return out
+
+
+def _struct_size(repo: Repo, f: Func, recv: ast.expr) -> t.Optional[int]:
+    """Size in bytes when `recv` denotes struct.Struct(<constant format>) (in place or through a module constant)."""
+    import struct as _struct
+
+    e: t.Optional[ast.expr] = recv
+    if isinstance(recv, ast.Name):
+        r = repo.resolve_name(recv.id, f.mod)
+        e = r[2] if isinstance(r, tuple) and r[0] == "const" and len(r) >= 3 else None
+    if isinstance(e, ast.Call) and repo.dotted(e.func, f.mod) == "struct.Struct" and len(e.args) == 1:
+        ok, fmt = repo.try_fold(e.args[0], f.mod)
+        if ok and isinstance(fmt, (str, bytes)):
+            try:
+                return _struct.calcsize(fmt)
+            except _struct.error:
+                return None
+    return None
+
+
+def struct_guard(repo: Repo, f: Func, n: ast.Call, size: int) -> t.Tuple[bool, str]:
+    """The conditions dominating the call prove len(buffer) >= size (unpack needs exactly size: only a constant-width
+    slice of that size counts)."""
+    from sa.linfacts import ge0_facts, goal_ge, proves_ge0
+    from .util import atoms_at, prov_text
+
+    if not n.args:
+        return False, f"{unparse(n)[:60]}: no buffer argument"
+    buf = n.args[0]
+    facts = ge0_facts(atoms_at(f, n))
+    for b in {unparse(buf), prov_text(f, buf, n)}:
+        try:
+            ln = ast.parse(f"len({b})", mode="eval").body
+        except SyntaxError:
+            continue
+        if proves_ge0(facts, goal_ge(ln, ast.Constant(value=0), size)):
+            return True, f"dominated by a test that the buffer holds the {size} bytes the format needs"
+    return False, f"{unparse(n)[:60]} needs {size} bytes: a shorter (truncated) input escapes with struct.error instead of a deliberate error - no dominating length test"
+
+
+def region_terminates(repo: Repo, chk: Check, rule: str) -> None:
+    """Every loop in the functions reachable from the unprotect entry points has a termination / bounded-work certificate
+    and the region has no recursion (used by C04: a tampered blob must end in an error or a result, not in a hang)."""
+    world = World(repo)
+    reg, cg = region(repo, world)
+    n = 0
+    for q, f in sorted(reg.items()):
+        for c in LoopChecker(world, f).all():
+            n += 1
+            chk.analysed(f)
+            chk.ob(rule, Site.of(f, c.node, c.text), c.kind is not None, f"{c.kind}: {c.why}" + (f" ({c.bound})" if c.bound else "") if c.kind else f"no termination/bounded-work certificate: {c.why}")
+    cyc = cg.recursive(reg)
+    chk.ob(rule, Site("src/dpapi_ng", "unprotect region", 0, "no recursion in the region"), not cyc, "the call graph of the region is acyclic" if not cyc else f"recursion {cyc[0]}: nesting depth of the input drives the stack")
+    chk.count("region loops", n)
 
 
 _SEEDED: t.Set[t.Tuple[int, str]] = set()
